@@ -70,6 +70,10 @@ CLAIMED = {
          "Decides clauses R19.1-R19.4: eviction only across age/not-batched/not-ready/parked edges; a per-account structure inside the loop over accounts never receives the whole account map; commit and eviction paths remove from the same five indices and drop the hash; the ready counter is written only by promote (+len ready), batch (-len / reset) and commit (clamp to ready size) and HasPendingRequest reports counter>0. Liveness and counter drift over histories are not decided.",
          "go/ssa model",
          "DESIGN.md section 5 C19"),
+ "C20": ("SSA guard-edge and must-follow rules on every commit-event send, who-may-write rule for the durable applied index, goroutine-root confinement of the unsynchronised pool, sibling agreement of the raft and solo state-report handlers",
+         "Decides clauses R20.1-R20.3, R20.5, R20.6: every send on commitC (raft mint, raft snapshot recovery, solo loop) lies behind height==lastExec+1 and is followed by the lastExec update before the next send; a block is minted only above the recorded applied index, and the durable applied index is written only from the stateC receive of the main loop; on election the batch sequence number is reset to lastExec and every batch-generation site is behind isLeader(); the pool's unsynchronised methods are called from one goroutine root per node; every state report reaches mempool.CommitTransactions on every path. Raft safety, faults, crash points and replica agreement on content are not decided.",
+         "go/ssa model; etcd raft trusted",
+         "DESIGN.md section 5 C20"),
 }
 NOT_APPLICABLE = {}
 
